@@ -184,6 +184,40 @@ def _public(ctx, name, n, rounds, byes, full_rows, dists, lo=0, hi=None):
     return dv
 
 
+def _public_sequence(ctx):
+    """
+    Several equally named instances in ONE process, one after the other.
+
+    (Workers of the pool each see their own order of matrices; here the order
+    is fixed: increasing then decreasing distances, every instance under the
+    same name, so that anything remembered from an earlier instance shows.)
+    """
+    dists = [[[0, 1], [2, 0]], [[0, 5], [5, 0]], [[0, 1], [3, 0]],
+             [[0, 700], [700, 0]], [[0, 2], [1, 0]]]
+    cnt = 0
+    for order in (dists, dists[::-1]):
+        for dist in order:
+            r = _public_job((2, 2, False, True, 0, 625, dist))
+            if r[0] == "ok":
+                cnt += r[1]
+            elif r[0] == "bad":
+                cfg = _cfg(2, False, True)
+                y = T.plan_from_index(r[1], cfg, 2)
+                report(ctx, y, np.array(dist), r[5], r[2], r[3], r[4],
+                       "public GamePlanLength.evaluate, equally named "
+                       "instances created one after the other")
+            else:
+                ctx.violation("GamePlanLength|attributes",
+                              f"bye_penalty/bounds wrong: {r} for {dist} "
+                              "(equally named instances created one after "
+                              "the other)", {"detail": list(r), "dist": dist})
+    ctx.add("evaluations", cnt)
+    ctx.add("traces_validated_against_impl", cnt)
+    ctx.part("public_sequence_of_equally_named_instances", executions=cnt,
+             matrices=len(dists))
+    ctx.log(f"public sequence of equally named instances: exec={cnt}")
+
+
 def synthetic4():
     return [
         [[0, 1, 2, 3], [7, 0, 4, 5], [8, 10, 0, 6], [9, 11, 12, 0]],
@@ -254,6 +288,7 @@ def run(ctx: Ctx) -> None:
         ctx.cap("6 teams: only the 120^4 single round-robin plans whose "
                 "first day is the first day row")
     # public API
+    _public_sequence(ctx)
     distinct += _public(ctx, "public_n2_r2", 2, 2, False, True,
                         [[[0, 1], [2, 0]], [[0, 5], [5, 0]],
                          [[0, 1], [3, 0]]])
